@@ -189,7 +189,7 @@ def run_check(pid, tier, seed, harness_specs, level_note, args):
                      'exhaustive_within_bounds': not S.incomplete, 'unsupported': S.unsupported, 'panics': S.panics,
                      'violations': vsummary, 'real_functions': list(hz.real_functions), 'path_conditions': S.pcs,
                      'translator_validation': {'paths_compared': len(tvs)}})
-        samples.extend(S.samples[:4])
+        samples.extend(sorted(S.samples, key=lambda x: -len(str(x)))[:3])
     # ---- verdict
     printed = set()
     for (law, role), kf in sorted(known_hit.items()):
